@@ -122,4 +122,23 @@ def parsePubArea (val : Bytes) : Except Err TPMPubArea := do
            unique := uniqueEcc (val.drop (p + 8)) }
   else throw (libErr .InvalidTPMPubAreaStructure "tpm.pubarea.type-unsupported")
 
+/-! ### the TPM 2.0 Part 2 layouts (spec side of the C12 round-trip theorems; tied to the
+simulator's independent encoder by the C12 correspondence check) -/
+
+/-- TPM2B: 2-byte big-endian size, then the bytes -/
+def tpm2b (x : Bytes) : Bytes := beBytes x.length 2 ++ x
+
+/-- TPMS_ATTEST for a certify structure -/
+def encodeCertInfo (magic tyB qs extra clock : Bytes) (reset restart : Nat) (safe : UInt8) (fw name qname : Bytes) : Bytes :=
+  magic ++ tyB ++ tpm2b qs ++ tpm2b extra ++ clock ++ beBytes reset 4 ++ beBytes restart 4 ++ [safe] ++ fw ++
+    tpm2b name ++ tpm2b qname
+
+/-- TPMT_PUBLIC, RSA -/
+def encodePubAreaRsa (tyB naB : Bytes) (attrs : Nat) (authPolicy symB schB keyBits exponent modulus : Bytes) : Bytes :=
+  tyB ++ naB ++ beBytes attrs 4 ++ tpm2b authPolicy ++ symB ++ schB ++ keyBits ++ exponent ++ tpm2b modulus
+
+/-- TPMT_PUBLIC, ECC -/
+def encodePubAreaEcc (tyB naB : Bytes) (attrs : Nat) (authPolicy symB schB crvB kdfB x y : Bytes) : Bytes :=
+  tyB ++ naB ++ beBytes attrs 4 ++ tpm2b authPolicy ++ symB ++ schB ++ crvB ++ kdfB ++ tpm2b x ++ tpm2b y
+
 end Webauthn
